@@ -5,6 +5,7 @@
 
 use crate::dto::{self, List, Timestamp, TimestampFormat};
 
+use std::borrow::Cow;
 use std::fmt;
 
 use quick_xml::Reader;
@@ -303,6 +304,7 @@ impl<'xml> Deserializer<'xml> {
                 DeEvent::End(_) => break,
                 DeEvent::Text(x) => {
                     self.consume_peeked();
+                    let x = normalize_text(x);
                     if single.is_none() && joined.is_none() {
                         single = Some(x);
                         continue;
@@ -313,7 +315,8 @@ impl<'xml> Deserializer<'xml> {
                 DeEvent::CData(x) => {
                     self.consume_peeked();
                     let buf = Self::joined_text(&mut single, &mut joined)?;
-                    buf.push_str(std::str::from_utf8(x.as_ref()).map_err(|_| DeError::InvalidContent)?);
+                    let s = std::str::from_utf8(x.as_ref()).map_err(|_| DeError::InvalidContent)?;
+                    buf.push_str(&normalize_line_ends(s));
                 }
             }
         }
@@ -370,6 +373,28 @@ impl fmt::Debug for Deserializer<'_> {
 /// White space of XML 1.0: space, tab, carriage return, line feed
 const fn is_xml_whitespace(b: u8) -> bool {
     matches!(b, b' ' | b'\t' | b'\r' | b'\n')
+}
+
+/// Translates every CR LF pair and every CR that is not followed by LF to a single LF,
+/// as an XML processor does before parsing (XML 1.0, section 2.11).
+fn normalize_line_ends(s: &str) -> Cow<'_, str> {
+    if !s.contains('\r') {
+        return Cow::Borrowed(s);
+    }
+    Cow::Owned(s.replace("\r\n", "\n").replace('\r', "\n"))
+}
+
+/// Normalizes the line ends of a text event. This happens before references are resolved:
+/// a carriage return written as `&#13;` stays a carriage return.
+fn normalize_text(text: BytesText<'_>) -> BytesText<'_> {
+    if !text.contains(&b'\r') {
+        return text;
+    }
+    match std::str::from_utf8(&text) {
+        Ok(s) => BytesText::from_escaped(normalize_line_ends(s).into_owned()),
+        // not UTF-8: left as it is, every content parser refuses it
+        Err(_) => text,
+    }
 }
 
 /// helper
